@@ -105,6 +105,7 @@ def post(ex, t, r):
 
 def run(ctx):
     prog = load.program(ctx.repo, ctx.cache)
+    C02.QUICK[0] = ctx.quick()      # the shape catalogue of the tier (workers are forked after this)
     T = templates(ctx)
     ctx.cov['bounds'] = {'values': 'C02 catalogue', 'member orders': 'all permutations of objects with <= 4 members (forked), reversal for larger ones', 'number spellings': 'integer vs float for integral values'}
     S = sym.explore_templates(ctx, __import__('props.C05', fromlist=['x']), T, prog, split_depth=4, budget_s=270 if ctx.quick() else 1700)
